@@ -28,6 +28,9 @@ pub struct Stats {
     pub notes: Vec<String>,
     /// violations of other properties observed while this oracle set ran (not reported here)
     pub suppressed: BTreeMap<String, u64>,
+    /// C17: order-independent digests (wrapping sums of per-case FNV hashes) of the logical
+    /// outputs, per shard
+    pub digests: BTreeMap<String, u64>,
 }
 
 impl Stats {
@@ -63,6 +66,20 @@ impl Stats {
         for (k, v) in &o.suppressed {
             *self.suppressed.entry(k.clone()).or_insert(0) += v;
         }
+        for (k, v) in &o.digests {
+            let e = self.digests.entry(k.clone()).or_insert(0);
+            *e = e.wrapping_add(*v);
+        }
+    }
+    pub fn dig(&mut self, shard: &str, f: Fnv) {
+        let h = f.finish();
+        match self.digests.get_mut(shard) {
+            Some(e) => *e = e.wrapping_add(h),
+            None => {
+                self.digests.insert(shard.to_string(), h);
+            }
+        }
+        transcript(shard, h);
     }
 }
 
@@ -132,4 +149,124 @@ pub fn par_map<T: Sync, R: Send>(items: &[T], threads: usize, f: impl Fn(&T) -> 
         }
     });
     out.into_inner().unwrap().into_iter().map(|x| x.unwrap()).collect()
+}
+
+/// Index from a pre-computed 64-bit hash to node ids; equality is decided on the full keys.
+#[derive(Default)]
+pub struct HashIndex {
+    map: std::collections::HashMap<u64, Vec<u32>, std::hash::BuildHasherDefault<IdHasher>>,
+}
+
+#[derive(Default)]
+pub struct IdHasher(u64);
+impl std::hash::Hasher for IdHasher {
+    fn finish(&self) -> u64 {
+        self.0
+    }
+    fn write(&mut self, bytes: &[u8]) {
+        for &b in bytes {
+            self.0 = (self.0 << 8) | b as u64;
+        }
+    }
+    fn write_u64(&mut self, i: u64) {
+        self.0 = i;
+    }
+}
+
+impl HashIndex {
+    pub fn new() -> HashIndex {
+        HashIndex::default()
+    }
+    pub fn find(&self, h: u64, eq: impl Fn(u32) -> bool) -> Option<u32> {
+        self.map.get(&h).and_then(|v| v.iter().copied().find(|&i| eq(i)))
+    }
+    pub fn insert(&mut self, h: u64, id: u32) {
+        self.map.entry(h).or_default().push(id);
+    }
+}
+
+pub fn hash_of<T: std::hash::Hash>(t: &T) -> u64 {
+    use std::hash::Hasher;
+    let mut h = std::collections::hash_map::DefaultHasher::new();
+    t.hash(&mut h);
+    h.finish()
+}
+
+/// FNV-1a over an explicit serialisation (independent of std's Hash implementations, so that
+/// digests are comparable across toolchains).
+#[derive(Clone, Copy)]
+pub struct Fnv(pub u64);
+impl Fnv {
+    pub fn new() -> Fnv {
+        Fnv(0xcbf29ce484222325)
+    }
+    #[inline]
+    pub fn b(mut self, x: u8) -> Fnv {
+        self.0 ^= x as u64;
+        self.0 = self.0.wrapping_mul(0x100000001b3);
+        self
+    }
+    pub fn bytes(mut self, x: &[u8]) -> Fnv {
+        for &b in x {
+            self = self.b(b);
+        }
+        self.b(0xFE)
+    }
+    pub fn u(mut self, x: u64) -> Fnv {
+        for i in 0..8 {
+            self = self.b((x >> (8 * i)) as u8);
+        }
+        self
+    }
+    pub fn u16s(mut self, x: &[u16]) -> Fnv {
+        for &u in x {
+            self = self.b(u as u8).b((u >> 8) as u8);
+        }
+        self.b(0xFD)
+    }
+    pub fn s(self, x: &str) -> Fnv {
+        self.bytes(x.as_bytes())
+    }
+    pub fn finish(self) -> u64 {
+        // avalanche a little so that sums do not cancel systematically
+        let mut h = self.0;
+        h ^= h >> 33;
+        h = h.wrapping_mul(0xff51afd7ed558ccd);
+        h ^= h >> 33;
+        h
+    }
+}
+
+/// Transcript mode (C17 localisation): VERIF_TRANSCRIPT_SHARD=<shard> VERIF_TRANSCRIPT_OUT=<file>
+/// appends one line per case of that shard; `describe` is set by the caller beforehand.
+pub fn transcript(shard: &str, h: u64) {
+    use std::sync::OnceLock;
+    static CFG: OnceLock<Option<(String, std::sync::Mutex<std::fs::File>)>> = OnceLock::new();
+    let cfg = CFG.get_or_init(|| {
+        let s = std::env::var("VERIF_TRANSCRIPT_SHARD").ok()?;
+        let o = std::env::var("VERIF_TRANSCRIPT_OUT").ok()?;
+        let f = std::fs::File::create(o).ok()?;
+        Some((s, std::sync::Mutex::new(f)))
+    });
+    if let Some((s, f)) = cfg {
+        if s == shard {
+            use std::io::Write;
+            let d = DESCR.with(|d| d.borrow().clone());
+            let _ = writeln!(f.lock().unwrap(), "{:016x}\t{}", h, d);
+        }
+    }
+}
+thread_local! {
+    pub static DESCR: std::cell::RefCell<String> = std::cell::RefCell::new(String::new());
+}
+pub fn transcript_on() -> bool {
+    use std::sync::OnceLock;
+    static ON: OnceLock<bool> = OnceLock::new();
+    *ON.get_or_init(|| std::env::var("VERIF_TRANSCRIPT_SHARD").is_ok())
+}
+pub fn describe(f: impl FnOnce() -> String) {
+    if transcript_on() {
+        let s = f();
+        DESCR.with(|d| *d.borrow_mut() = s);
+    }
 }
